@@ -124,10 +124,40 @@ pub fn gen_acyclic(r: &mut Rng, c: &GenCfg) -> Program {
         let multis: Vec<u16> = (0..i).filter(|j| kinds[*j] == Kind::Multi).map(|j| j as u16).collect();
         let mut have_ts = struct_keyed && kind != Kind::OnIt;
         let mut have_it = kind == Kind::OnIt;
+        // preambles: the shapes real programs have (read something, then create a struct from
+        // it / intern it); the random ops that follow perturb them
+        if creates && r.pct(60) {
+            let a = r.usize(NREG) as u8;
+            let b = r.usize(NREG) as u8;
+            ops.push(Op::In { d: a, i: r.usize(n_inputs) as u16, f: r.usize(3) as u8 });
+            if r.pct(50) {
+                ops.push(Op::In { d: b, i: r.usize(n_inputs) as u16, f: r.usize(3) as u8 });
+            }
+            let idr = r.usize(NREG) as u8;
+            ops.push(Op::NewTs { i: idr, a, b });
+            if r.pct(35) {
+                // a second struct, often with a colliding identity value
+                ops.push(Op::NewTs { i: if r.pct(60) { idr } else { r.usize(NREG) as u8 }, a: b, b: a });
+            }
+            have_ts = true;
+        }
+        if c.intern_ops && !c.intern_types.is_empty() && !struct_keyed && r.pct(30) {
+            let a = r.usize(NREG) as u8;
+            ops.push(Op::In { d: a, i: r.usize(n_inputs) as u16, f: r.usize(3) as u8 });
+            ops.push(Op::Intern { t: *r.pick(&c.intern_types), s: a });
+            have_it = true;
+            if r.pct(50) {
+                ops.push(Op::ReadIt { d: r.usize(NREG) as u8, h: 0 });
+            }
+        }
         for _ in 0..n_ops {
             let d = r.usize(NREG) as u8;
             let s = r.usize(NREG) as u8;
-            let roll = r.below(100);
+            let mut roll = r.below(100);
+            // bodies keyed by a struct / interned value mostly look at their key
+            if struct_keyed && r.pct(45) {
+                roll = if kind == Kind::OnIt { 90 } else { 73 };
+            }
             let op = match roll {
                 0..=17 => Op::In { d, i: r.usize(n_inputs) as u16, f: r.usize(3) as u8 },
                 18..=35 if !callable.is_empty() => Op::Call { d, n: *r.pick(&callable) },
@@ -147,7 +177,7 @@ pub fn gen_acyclic(r: &mut Rng, c: &GenCfg) -> Program {
                     have_ts = true;
                     Op::MkCall { d, n: *r.pick(&makers) }
                 }
-                73..=77 if have_ts => Op::ReadTs { d, h: r.usize(4) as u8, f: r.usize(3) as u8 },
+                73..=77 if have_ts => Op::ReadTs { d, h: r.usize(4) as u8, f: *r.pick(&[0u8, 1, 1, 2]) },
                 78..=80 if have_ts && on_ts.is_some_and(|p| p < i) => Op::CallOnTs { d, h: r.usize(4) as u8 },
                 81..=82 if have_ts && spec.is_some_and(|p| p < i) => Op::CallSpec { d, h: r.usize(4) as u8 },
                 83..=84 if have_ts && creates && spec.is_some_and(|p| p < i) => Op::Specify { h: r.usize(4) as u8, s },
@@ -196,6 +226,8 @@ pub struct HistCfg {
     pub durs: Vec<Option<Dur>>,
     pub synth_durs: Vec<Dur>,
     pub deep_mk: bool,
+    /// percentage of runs whose history gets scenario motifs spliced in
+    pub motif_pct: u32,
 }
 
 impl HistCfg {
@@ -219,8 +251,126 @@ impl HistCfg {
             durs: vec![None, None, Some(Dur::Low), Some(Dur::Medium), Some(Dur::High)],
             synth_durs: vec![Dur::Low, Dur::Medium, Dur::High],
             deep_mk: true,
+            motif_pct: 0,
         }
     }
+}
+
+fn lower(d: Dur) -> Dur {
+    match d {
+        Dur::High | Dur::Never => Dur::Medium,
+        _ => Dur::Low,
+    }
+}
+fn higher(d: Dur) -> Dur {
+    match d {
+        Dur::Low => Dur::Medium,
+        _ => Dur::High,
+    }
+}
+
+/// Scenario motifs: short write/request sequences aimed at the places where in-flight state
+/// exists (a durability change with an equal value, then a change at the lower level, ...).
+/// They are spliced into random histories; the surrounding steps stay random.
+pub fn splice_motifs(r: &mut Rng, p: &Program, w0: &World, hist: Vec<Step>) -> Vec<Step> {
+    let queryable: Vec<u16> = (0..p.nodes.len()).filter(|i| p.nodes[*i].kind.keyed_by_node() || p.nodes[*i].kind == Kind::Zero).map(|i| i as u16).collect();
+    let mut read_fields: Vec<(u16, u8)> = vec![];
+    for n in &p.nodes {
+        for op in &n.ops {
+            if let Op::In { i, f, .. } = op {
+                if !read_fields.contains(&(*i, *f)) {
+                    read_fields.push((*i, *f));
+                }
+            }
+        }
+    }
+    if read_fields.is_empty() || queryable.is_empty() {
+        return hist;
+    }
+    let m = p.m as u64;
+    let q = |r: &mut Rng, n: u16| -> Step {
+        if p.nodes[n as usize].kind.is_maker() { Step::QueryMk { n, deep: r.pct(70) } } else { Step::Query { n, arg: r.below(m) as u32 } }
+    };
+    let makers: Vec<u16> = queryable.iter().copied().filter(|n| p.nodes[*n as usize].kind.is_maker()).collect();
+    let tops = |r: &mut Rng, out: &mut Vec<Step>| {
+        let k = r.range(1, 2);
+        if !makers.is_empty() && r.pct(45) {
+            let n = *r.pick(&makers);
+            out.push(Step::QueryMk { n, deep: true });
+        }
+        for j in 0..k {
+            let n = if j == 0 || r.pct(50) { queryable[queryable.len() - 1 - r.usize(queryable.len().min(2))] } else { *r.pick(&queryable) };
+            out.push(q(r, n));
+        }
+    };
+    let n_motifs = r.range(1, 3);
+    let mut cuts: Vec<usize> = (0..n_motifs).map(|_| r.usize(hist.len() + 1)).collect();
+    cuts.sort();
+    let mut cur = w0.clone();
+    let mut fdur: std::collections::HashMap<(u16, u8), Dur> = Default::default();
+    let mut out = vec![];
+    let mut ci = 0;
+    let apply = |s: &Step, cur: &mut World, fdur: &mut std::collections::HashMap<(u16, u8), Dur>| {
+        if let Step::SetIn { i, f, v, d } = s {
+            let old = fdur.get(&(*i, *f)).copied().unwrap_or(Dur::Low);
+            if old != Dur::Never {
+                cur.ins[*i as usize][*f as usize] = *v;
+                if let Some(d) = d {
+                    fdur.insert((*i, *f), *d);
+                }
+            }
+        }
+    };
+    for (idx, s) in hist.iter().enumerate() {
+        while ci < cuts.len() && cuts[ci] == idx {
+            ci += 1;
+            let (i, f) = *r.pick(&read_fields);
+            let d0 = fdur.get(&(i, f)).copied().unwrap_or(Dur::Low);
+            if d0 == Dur::Never {
+                continue;
+            }
+            let curv = cur.ins[i as usize][f as usize];
+            let other = (curv + 1 + r.below(m - 1) as u32) % p.m;
+            let mut mo = vec![];
+            match r.below(4) {
+                0 | 1 => {
+                    // durability drop (after a raise when already LOW), equal value, then a change at the lower level
+                    let mut d = d0;
+                    if d == Dur::Low {
+                        d = *r.pick(&[Dur::Medium, Dur::High, Dur::High]);
+                        mo.push(Step::SetIn { i, f, v: curv, d: Some(d) });
+                        tops(r, &mut mo);
+                    }
+                    let v1 = if r.pct(65) { curv } else { r.below(m) as u32 };
+                    mo.push(Step::SetIn { i, f, v: v1, d: Some(lower(d)) });
+                    tops(r, &mut mo);
+                    mo.push(Step::SetIn { i, f, v: (v1 + 1 + r.below(m - 1) as u32) % p.m, d: None });
+                    tops(r, &mut mo);
+                }
+                2 => {
+                    // durability raise with equal value, then a change
+                    mo.push(Step::SetIn { i, f, v: curv, d: Some(higher(d0)) });
+                    tops(r, &mut mo);
+                    mo.push(Step::SetIn { i, f, v: other, d: None });
+                    tops(r, &mut mo);
+                }
+                _ => {
+                    // write the same value, request, write a different one, request
+                    mo.push(Step::SetIn { i, f, v: curv, d: None });
+                    tops(r, &mut mo);
+                    mo.push(Step::SetIn { i, f, v: other, d: None });
+                    tops(r, &mut mo);
+                }
+            }
+            for s in &mo {
+                apply(s, &mut cur, &mut fdur);
+            }
+            out.extend(mo);
+        }
+        apply(s, &mut cur, &mut fdur);
+        out.push(s.clone());
+    }
+    out
 }
 
 pub fn gen_history(r: &mut Rng, p: &Program, c: &HistCfg) -> Vec<Step> {
